@@ -1035,7 +1035,7 @@ fn main() {
     driver::main(CheckDef {
         prop: "C17",
         level: "model_checking",
-        rule: "all span trees (chains of nested spans) up to the stated depth where every level independently takes one of 20 variants (fields a,b given at creation or left Empty; a later record() of a or b, either right after creation or after the child span was created), x filters {IncludeAll, custom per-metric closure, Allowlists over {a,b,c}} x metric own-label sets ⊆ {a,c} x 2 metric names x 3 kinds, emitted inside every level, after every subtree, after leaving every level and outside any span, on the real MetricsLayer + TracingContextLayer over a real tracing-subscriber registry, optionally with a second thread holding a conflicting span on the same subscriber; the key reaching the inner recorder is compared with a reference precedence map (metric > inner span > outer span-at-child-creation, record() replaces); plus, at the value-formatting callback inside Span::record (the one point where other code can run during a record), every action of {emit in the span, create a child and emit in it} x {same thread, another thread} and a concurrent record of the other field: the emission sees the labels from before or after the record, never a torn set; plus field value types (str, bool, i64/u64 extremes, Debug, Display, f64, u128, Empty); distinct = distinct resulting label sets; span identity: every sequence of 6 (thorough 8) operations over a pool of 3 spans from ONE callsite with different field values (create under the current span, enter/exit, record, drop the handle, a wide pair of spans with 40 labels created, checked and closed — label maps are pooled —, and the same recorder used for a moment under a second subscriber instance; the recorder's first emission is made before any subscriber exists — so that the registry hands span ids out again), an emission after every step",
+        rule: "all span trees (chains of nested spans) up to the stated depth where every level independently takes one of 20 variants (fields a,b given at creation or left Empty; a later record() of a or b, either right after creation or after the child span was created), x filters {IncludeAll, custom per-metric closure, Allowlists over {a,b,c}} x metric own-label sets ⊆ {a,c} x 2 metric names x 3 kinds, emitted inside every level, after every subtree, after leaving every level and outside any span, on the real MetricsLayer + TracingContextLayer over a real tracing-subscriber registry, optionally with a second thread holding a conflicting span on the same subscriber; the key reaching the inner recorder is compared with a reference precedence map (metric > inner span > outer span-at-child-creation, record() replaces); plus, at the value-formatting callback inside Span::record (the one point where other code can run during a record), every action of {emit in the span, create a child and emit in it} x {same thread, another thread} and a concurrent record of the other field: the emission sees the labels from before or after the record, never a torn set; plus field value types (str, bool, i64/u64 extremes, Debug, Display, f64, u128, Empty); distinct = distinct resulting label sets; span identity: every sequence of 6 (thorough 8) operations over a pool of 3 spans from ONE callsite with different field values (create under the current span, enter/exit, record, drop the handle, a wide pair of spans with 40 labels created, checked and closed — label maps are pooled —, and the same recorder used for a moment under a second subscriber instance; the recorder's first emission is made before any subscriber exists — so that the registry hands span ids out again), an emission after every step; level shapes include a record of two fields in ONE Span::record_all call",
         assumptions: &["span trees are chains (each span has at most one child): sibling spans are independent by construction of the per-span label map"],
         parts,
         run,
